@@ -36,6 +36,11 @@
 //@ item src/sys.rs / impl Poll / fn unregister props=C16 sigonly ret=r
 //@ endif
 //@ spec
+//@ if poll_unreg_guarded
+        // (io unit only: a may-call guard on the caller side -- an EXTRA obligation for callers of this signature-only copy,
+        // so that `kill` has to justify every deletion; the proved contract has no precondition)
+        requires self.pl().may_delete(crate::polling::fd_raw(&fd)),
+//@ endif
         ensures
             // C16: Ok means the fd HAS been deleted from the OS poller
             r is Ok ==> self.pl().w_deleted(crate::polling::fd_raw(&fd)),
